@@ -31,6 +31,15 @@ ObsStage == [i \in 1..Len(NewStage) |-> ObsNode(NewStage[i])]
 TokOf(n) == <<CatOf(stages'[n.hdr[1]][n.hdr[2]].cell.t, n.cell.k), TokEncoding(n.cell), IsHidden(n.cell),
               n.hdr[2] - 1, stages'[n.hdr[1]][n.hdr[2]].cell.t>>
 ObsToks == [i \in 1..Len(NewStage) |-> TokOf(NewStage[i])]
+\* the five components separately, so that a deviation is attributed to the property it belongs to
+TokPart(k) == [i \in 1..Len(NewStage) |-> TokOf(NewStage[i])[k]]
+ObsPart(toks, k) == [i \in 1..Len(toks) |-> toks[i][k]]
+TokChecks(prefix, toks) ==
+  << <<prefix \o ".token_category", ObsPart(toks, 1) = TokPart(1)>>,
+     <<prefix \o ".token_text", ObsPart(toks, 2) = TokPart(2)>>,
+     <<prefix \o ".token_hidden", ObsPart(toks, 3) = TokPart(3)>>,
+     <<prefix \o ".spine_id", ObsPart(toks, 4) = TokPart(4)>>,
+     <<prefix \o ".header_text", ObsPart(toks, 5) = TokPart(5)>> >>
 \* the generator's text of a cell must be the text its abstract description writes
 CellTextOK(c) == CASE c.k = "note" -> c.t = NoteText(c.n)
                    [] c.k = "chord" -> c.t = ChordText(c.ns)
@@ -44,14 +53,12 @@ TGlobal == /\ IsEvent("global") /\ Global(Ev.cell) /\ UNCHANGED snap0
                       <<"global.onenode", Ev.obs.n = 1>>,
                       <<"global.text", Ev.obs.text = Ev.cell.t>> >>)
 THeader == /\ IsEvent("header") /\ Header(Ev.cells) /\ UNCHANGED snap0
-           /\ Note(<< <<"header.tree", ObsStage = Ev.obs.stage>>,
-                      <<"header.tokens", ObsToks = Ev.obs.toks>> >>)
+           /\ Note(<< <<"header.tree", ObsStage = Ev.obs.stage>> >> \o TokChecks("header", Ev.obs.toks))
 TRow == /\ IsEvent("row") /\ Row(Ev.cells) /\ UNCHANGED snap0
         /\ Note(<< <<"row.generator_text", CellsTextOK(Ev.cells)>>,
                    <<"row.node_per_cell", Len(Ev.obs.stage) = Len(Ev.cells)>>,
                    <<"row.tree", ObsStage = Ev.obs.stage>>,
-                   <<"row.tokens", ObsToks = Ev.obs.toks>>,
-                   <<"row.measure_index", mstarts' = Ev.obs.mst>> >>)
+                   <<"row.measure_index", mstarts' = Ev.obs.mst>> >> \o TokChecks("row", Ev.obs.toks))
 TSurplus == /\ IsEvent("surplus") /\ Surplus(Ev.cells) /\ UNCHANGED snap0
             /\ Note(<< <<"surplus.rejected", Ev.obs.raised>> >>)
 \* end of the import: totals of the real document
@@ -60,6 +67,7 @@ TEnd == /\ IsEvent("end") /\ UNCHANGED spVars /\ snap0' = Ev.snap
                    <<"end.errors", Ev.obs.errs = errs>>,
                    <<"end.measure_index", Ev.obs.mst = mstarts>>,
                    <<"end.shape", Ev.obs.shape = [s \in 1..Len(stages) |-> Len(stages[s])]>>,
+                   <<"end.page_index", "pages" \in DOMAIN Ev.obs => Ev.obs.pages = PageIndex>>,
                    <<"end.two_imports_indistinguishable", "snap2" \in DOMAIN Ev => Ev.snap2 = Ev.snap>> >>)
 
 \* kernpy.loads raised on input the generator built to be well-formed
@@ -71,20 +79,34 @@ OptsOf(a) == [types |-> IF a.alltypes THEN KnownHeaders ELSE SetOf(a.types),
               allids |-> a.allids, ids |-> SetOf(a.ids),
               cats |-> Valid(a.incall, SetOf(a.inc), SetOf(a.exc)), enc |-> a.enc]
 PairsOf(xs) == [j \in 1..Len(xs) |-> <<xs[j].cat, xs[j].t>>]
+\* Several properties are RELATIVE statements ("equals the unfiltered export in which ...", "the full export with the columns
+\* deleted", "the data lines of the full export"): an event may name a BASE export (e.base = index of an earlier dumps event of
+\* the same session).  When the base export itself is not what the specification says (a defect that belongs to C03), the
+\* relative statement cannot be judged through the specification and the event is skipped; when the base is right, the
+\* specification's value is exactly the transformation of the base.  A base event reports under "base.*", not "dumps.*".
+BaseOK(k) == LET b == Log[tid][k] IN b.res.ok /\ GridMatches(b.res.grid, 2, Len(stages), OptsOf(b.args), TRUE)
 DumpsChecks(e) ==
-  LET a == e.args  o == OptsOf(a)  r == e.res IN
-  IF ~ValidRange(a.hasfrom, a.from, a.hasto, a.to)
-  THEN << <<"dumps.range_rejected", ~r.ok /\ r.exc = "ValueError">> >>
+  LET a == e.args  o == OptsOf(a)  r == e.res
+      pre == IF "role" \in DOMAIN e /\ e.role = "base" THEN "base" ELSE "dumps" IN
+  IF "base" \in DOMAIN e /\ ~BaseOK(e.base) THEN <<>>
+  ELSE IF ~ValidRange(a.hasfrom, a.from, a.hasto, a.to)
+  THEN << <<pre \o ".range_rejected", ~r.ok /\ r.exc = "ValueError">> >>
   ELSE IF (a.hasfrom /\ a.from > 0) \/ a.hasto
   THEN LET af == IF a.hasfrom /\ a.from > 0 THEN a.from ELSE 0
            bt == IF a.hasto THEN a.to ELSE M IN
        IF e.strict
-       THEN << <<"dumps.range_ok", r.ok>>,
-               <<"dumps.range_body", r.ok => BodyLines(r.grid) = (IF af = 0 THEN BodyLines(GridFrom(2, RangeLast(bt), o)) ELSE RangeBody(af, bt, o))>> >>
+       THEN << <<pre \o ".range_ok", r.ok>>,
+               <<pre \o ".range_body", r.ok => BodyLines(r.grid) = (IF af = 0 THEN BodyLines(GridFrom(2, RangeLast(bt), o)) ELSE RangeBody(af, bt, o))>> >>
        ELSE <<>>
-  ELSE IF ExportRaises(o) THEN << <<"dumps.raises", ~r.ok>> >>
-  ELSE << <<"dumps.ok", r.ok>>,
-          <<"dumps.grid", r.ok => GridMatches(r.grid, 2, Len(stages), o, e.exact)>> >>
+  ELSE IF ExportRaises(o) THEN << <<pre \o ".raises", ~r.ok>> >>
+  ELSE << <<pre \o ".ok", r.ok>>,
+          <<pre \o ".grid", r.ok => GridMatches(r.grid, 2, Len(stages), o, e.exact)>> >>
+\* C12: the malformed cells are exported verbatim in place (judged only where the exported grid has the specified shape)
+MalformedInPlace(e) ==
+  LET o == OptsOf(e.args)  vs == ViewsFrom(2, Len(stages), o)  g == e.res.grid IN
+  (e.res.ok /\ Len(g) = Len(vs) /\ \A r \in 1..Len(g) : Len(g[r]) = Len(vs[r])) =>
+     \A r \in 1..Len(g) : \A i \in 1..Len(g[r]) : ("err" \in DOMAIN vs[r][i]) => g[r][i] = vs[r][i].t
+
 \* ---- relations evaluated on LOGGED outputs of earlier events (C01, C04, C10) ----
 ResOf(k) == Log[tid][k].res
 IsHeaderTextRow(row) == \A i \in 1..Len(row) : StartsWith(row[i], <<STAR, STAR>>)
@@ -136,7 +158,7 @@ CatsOfText(xs, t) == {xs[j].cat : j \in {k \in 1..Len(xs) : xs[k].t = t}}
 RECURSIVE SumSeq(_)
 SumSeq(ns) == IF ns = <<>> THEN 0 ELSE Head(ns) + SumSeq(Tail(ns))
 CallChecks(e) ==
-  CASE e.op = "dumps"      -> DumpsChecks(e)
+  CASE e.op = "dumps"      -> DumpsChecks(e) \o (IF "malformed" \in DOMAIN e THEN << <<"dumps.malformed_verbatim_in_place", MalformedInPlace(e)>> >> ELSE <<>>)
     [] e.op = "same_as"    -> << <<"call.same_result", e.res = Log[tid][e.ref].res>> >>   \* e.g. explicit default = omitted
     [] e.op = "reexport"   -> << <<"reexport.no_import_errors", e.nerr = 0>>,            \* export . import . export = export
                                  <<"reexport.fixed_point", e.res = ResOf(e.ref)>> >>
@@ -166,7 +188,8 @@ CallChecks(e) ==
 TransposeChecks(e) ==
   LET iv == IvOfName[e.iv]  ts == TransposedStages(iv, e.up) IN
   << <<"transpose.succeeds_when_spellable", AllSpellable(iv, e.up) => e.res.ok>>,
-     <<"transpose.result_grid", (AllSpellable(iv, e.up) /\ e.res.ok) => On(ts, mstarts)!GridMatches(e.res.grid, 2, Len(stages), DefaultOpts, TRUE)>>,
+     \* relative to the source export (e.ref): judged when that export is what the specification says
+     <<"transpose.result_grid", (BaseOK(e.ref) /\ AllSpellable(iv, e.up) /\ e.res.ok) => On(ts, mstarts)!GridMatches(e.res.grid, 2, Len(stages), DefaultOpts, TRUE)>>,
      <<"transpose.round_trip_restores_source_export", e.res.ok => (e.back.ok /\ e.back.grid = ResOf(e.ref).grid)>>,
      <<"transpose.source_export_unchanged", e.src_after = ResOf(e.ref)>> >>
 TTranspose == /\ IsEvent("transpose") /\ UNCHANGED spVars /\ UNCHANGED snap0
@@ -183,8 +206,9 @@ ConcatChecks(e) ==
      <<"concat.pairs", e.pairs = want>>,
      <<"concat.consecutive", \A i \in 1..(Len(e.pairs) - 1) : e.pairs[i + 1][1] = e.pairs[i][2] + 1>>,
      <<"concat.last_is_measure_count", Len(e.pairs) > 0 => e.pairs[Len(e.pairs)][2] = M>>,
-     <<"concat.pair_addresses_fragment", Len(e.exports) = n /\ \A i \in 1..n :
-          e.exports[i].ok /\ DataLines(e.exports[i].grid) = FragmentDataLines(e.ends, i, DefaultOpts)>> >>
+     \* relative to the full export: judged when the full export (e.base) is what the specification says
+     <<"concat.pair_addresses_fragment", ("base" \in DOMAIN e /\ ~BaseOK(e.base)) \/ (Len(e.exports) = n /\ \A i \in 1..n :
+          e.exports[i].ok /\ DataLines(e.exports[i].grid) = FragmentDataLines(e.ends, i, DefaultOpts))>> >>
 TConcat == /\ IsEvent("concat") /\ UNCHANGED spVars /\ UNCHANGED snap0 /\ Note(ConcatChecks(Ev))
 
 (* ----------------------- measure excerpts (C08) ------------------------- *)
